@@ -7,6 +7,9 @@ each generated term equals the hand-written model function the theorems are abou
 models are tied to the source *syntactically*, not only by running them: editing the C++ expression changes the
 generated term and the tie lemma has to be re-proved (it breaks when the meaning over the reals changes).
 
+Loops: `while (c) {..}` and `for (;;) {..; if (c) break;}` over scalar locals become a local `fix` on an added fuel
+argument; the function then returns an option (None = still running after `fuel` passes), and so does every caller.
+
 Supported C++ (anything else is an error — fail closed):
   const double x = e;   return e;   return T(e1, e2[, e3]);   v[i] = e; ... return v;
   + - * / unary -, parentheses, implicit casts, int and floating literals, parameters, locals,
@@ -32,6 +35,16 @@ FUNCS = [
     ("src_toECEF", "src/geodesy/ECEFConverter.cpp", "romea::core::ECEFConverter::toECEF", "toECEF"),
     ("src_toLambert", "src/geodesy/LambertConverter.cpp", "romea::core::LambertConverter::toLambert", "toLambert"),
     # matrix mode: the 3x3 block written column by column with Eigen comma initialisers  m.linear().col(k) << a, b, c;
+    # iterative code: loops become a local fix on a fuel argument, result in option
+    ("src_computeLatitude", "src/geodesy/LambertConverter.cpp", "romea::core::LambertConverter::computeLatitude", "computeLatitude",
+     {"constexpr": [("EPSILON", "EPSILON")]}),
+    ("src_lambertToWGS84", "src/geodesy/LambertConverter.cpp", "romea::core::LambertConverter::toWGS84", "toWGS84", {}),
+    ("src_secantProjection", "src/geodesy/LambertConverter.cpp", "romea::core::LambertConverter::computeProjectionParameters",
+     "computeProjectionParameters", {"param_type": "SecantProjectionParameters"}),
+    ("src_tangentProjection", "src/geodesy/LambertConverter.cpp", "romea::core::LambertConverter::computeProjectionParameters",
+     "computeProjectionParameters", {"param_type": "TangentProjectionParameters"}),
+    ("src_ecefToWGS84", "src/geodesy/ECEFConverter.cpp", "romea::core::ECEFConverter::toWGS84", "toWGS84",
+     {"constexpr": [("EPSILON", "EPSILON")], "constructors": ["makeGeodeticCoordinates"]}),
     # function templates: the instantiation at Scalar = double (explicitly instantiated in the translation unit)
     ("src_between0And2Pi", EA, "romea::core::between0And2Pi", "between0And2Pi",
      {"tu": "template double romea::core::between0And2Pi<double>(double);\n", "constexpr": [("M_2PI", "romea::core::M_2PI")]}),
@@ -119,7 +132,7 @@ def dec_pair(lit):
     while m != 0 and m % 10 == 0:
         m //= 10
         exp += 1
-    return m, exp
+    return (m, exp) if m != 0 else (0, 0)
 
 
 def zl(z):
@@ -132,6 +145,9 @@ class Fn:
         self.mode = mode or {}
         self.consts = self.mode.get("consts", {})   # namespace-scope constexpr name -> term (translated from its initialiser)
         self.ssa = 0
+        self.pending = []     # (name, option-valued call) met inside the expression being translated
+        self.partial = False  # the function has a loop or calls an iterative helper: fuel argument, option result
+        self.result = None
         self.cols = {}        # matrix mode: column index -> [terms]
         self.skipped = []     # matrix mode: statements that touch neither the matrix nor a scalar local
         self.known = known or {}   # C++ function name -> (coq name, number of parameters) for pure helpers already translated
@@ -178,8 +194,10 @@ class Fn:
             v = n["value"]
             if v in PI_LITS:
                 return PI_LITS[v]
-            m, e = dec_pair(v)
-            return "(nofZ N %s)" % zl(m) if e == 0 and False else "(nofDec N %s %s)" % (zl(m), zl(e))
+            # clang prints the double's 17-digit value; the shortest decimal denoting the same double is the canonical
+            # reading of the literal (1e-12 for 9.9999999999999998E-13); the real-number instance idealises it to that decimal
+            m, e = dec_pair(repr(float(v)))
+            return "(nofDec N %s %s)" % (zl(m), zl(e))
         if k == "DeclRefExpr":
             nm = n["referencedDecl"]["name"]
             if nm in self.locals:
@@ -237,7 +255,17 @@ class Fn:
             if nm in BINARY and len(args) == 2:
                 return "(%s N %s %s)" % (BINARY[nm], self.expr(args[0]), self.expr(args[1]))
             if nm in self.known and self.known[nm][1] == len(args):
-                return "(%s %s)" % (self.known[nm][0], " ".join(self.expr(a) for a in args))
+                call = " ".join(self.expr(a) for a in args)
+                if self.known[nm][2]:
+                    # an iterative helper: option-valued, bound before the statement that uses it
+                    self.ssa += 1
+                    r = "r_%s_%d" % (nm, self.ssa)
+                    self.pending.append((r, "(%s fuel %s)" % (self.known[nm][0], call)))
+                    self.partial = True
+                    return r
+                return "(%s %s)" % (self.known[nm][0], call)
+            if nm in self.mode.get("constructors", ()):
+                raise Unsupported("aggregate constructor %s used as a scalar" % nm)
             raise Unsupported("call to %s" % nm)
         if k == "CXXMemberCallExpr":
             # accessor such as position.x(): treat as a variable named by the path
@@ -259,80 +287,197 @@ class Fn:
         if k == "DeclRefExpr" and n["referencedDecl"]["name"] in self.vec:
             v = self.vec[n["referencedDecl"]["name"]]
             return [v[i] for i in sorted(v)]
+        if k == "CallExpr" and self.strip(n["inner"][0]).get("referencedDecl", {}).get("name") in self.mode.get("constructors", ()):
+            return [self.expr(a) for a in n["inner"][1:]]      # a function that only packs its arguments into a struct
         return [self.expr(n)]
+
+    def emit(self, name, term):
+        """a let; option-valued helper calls met while translating the term are bound first"""
+        for nm, t in self.pending:
+            self.lets.append(("bind", nm, t))
+        self.pending = []
+        if name is not None:
+            self.lets.append(("let", name, term))
+
+    def stmt(self, st, in_loop=False):
+        k = st.get("kind")
+        if k == "DeclStmt":
+            for v in st.get("inner", []):
+                if v.get("kind") != "VarDecl":
+                    raise Unsupported("declaration %s" % v.get("kind"))
+                ty = v.get("type", {}).get("qualType", "")
+                init = [c for c in v.get("inner", []) if isinstance(c, dict)]
+                if is_scalar(ty):
+                    if not init:
+                        raise Unsupported("uninitialised scalar %s" % v.get("name"))
+                    t = self.expr(init[0])
+                    cn = "l_" + v["name"]
+                    self.emit(cn, t)
+                    self.locals[v["name"]] = cn
+                elif in_loop:
+                    raise Unsupported("aggregate declared inside a loop")
+                else:
+                    self.vec[v["name"]] = {}          # an aggregate filled component by component
+        elif k == "ReturnStmt":
+            if in_loop:
+                raise Unsupported("return inside a loop")
+            self.result = self.components(st["inner"][0])
+            self.emit(None, None)
+        elif self.void_noop(st) or k == "NullStmt":
+            pass                                      # (void)x;  ((void)0);  — no effect (NDEBUG assert, unused-variable silencer)
+        elif k == "IfStmt" or self.scalar_assignment(st):
+            env = dict(self.locals)
+            self.effects(st, env)
+            if self.pending:
+                raise Unsupported("call of an iterative helper inside a conditional")
+            for nm in env:
+                if env[nm] != self.locals[nm]:
+                    self.ssa += 1
+                    cn = "l_%s_%d" % (nm, self.ssa)
+                    self.emit(cn, env[nm])
+                    self.locals[nm] = cn
+        elif k in ("WhileStmt", "ForStmt") and not in_loop:
+            self.loop(st)
+        elif self.mode.get("matrix") and not in_loop and k in ("BinaryOperator", "CXXOperatorCallExpr", "ExprWithCleanups", "CXXMemberCallExpr"):
+            col = self.comma_init(st)
+            if col is not None:
+                kcol, terms = col
+                if kcol in self.cols:
+                    raise Unsupported("column %d written twice" % kcol)
+                self.cols[kcol] = terms
+                return
+            if self.mentions(st, self.mode["matrix"]):
+                raise Unsupported("statement touches the matrix outside a comma initialiser")
+            self.skipped.append(k)
+        elif k in ("BinaryOperator", "CXXOperatorCallExpr", "ExprWithCleanups") and not in_loop:
+            s = self.strip(st)
+            if s.get("kind") == "BinaryOperator" and s.get("opcode") == "=":
+                lhs, rhs = self.strip(s["inner"][0]), s["inner"][1]
+            elif s.get("kind") == "CXXOperatorCallExpr" and len(s.get("inner", [])) == 3:
+                lhs, rhs = self.strip(s["inner"][1]), s["inner"][2]   # operator=(lhs, rhs)
+            else:
+                raise Unsupported("statement %s" % s.get("kind"))
+            # lhs must be  vec[i]
+            if lhs.get("kind") == "CXXOperatorCallExpr" and len(lhs.get("inner", [])) == 3:
+                obj, idx = self.strip(lhs["inner"][1]), self.strip(lhs["inner"][2])
+                if obj.get("kind") == "DeclRefExpr" and obj["referencedDecl"]["name"] in self.vec and idx.get("kind") == "IntegerLiteral":
+                    self.vec[obj["referencedDecl"]["name"]][int(idx["value"])] = self.expr(rhs)
+                    self.emit(None, None)
+                    return
+            raise Unsupported("assignment target")
+        else:
+            raise Unsupported("statement %s%s" % (k, " inside a loop" if in_loop else ""))
 
     def body(self):
         comp = [c for c in self.node.get("inner", []) if c.get("kind") == "CompoundStmt"]
         if not comp:
             raise Unsupported("no body")
-        result = None
+        self.result = None
         for st in comp[0].get("inner", []):
-            k = st.get("kind")
-            if k == "DeclStmt":
-                for v in st.get("inner", []):
-                    if v.get("kind") != "VarDecl":
-                        raise Unsupported("declaration %s" % v.get("kind"))
-                    ty = v.get("type", {}).get("qualType", "")
-                    init = [c for c in v.get("inner", []) if isinstance(c, dict)]
-                    if is_scalar(ty):
-                        if not init:
-                            raise Unsupported("uninitialised scalar %s" % v.get("name"))
-                        t = self.expr(init[0])
-                        cn = "l_" + v["name"]
-                        self.lets.append((cn, t))
-                        self.locals[v["name"]] = cn
-                    else:
-                        self.vec[v["name"]] = {}          # an aggregate filled component by component
-            elif k == "ReturnStmt":
-                result = self.components(st["inner"][0])
-            elif self.void_noop(st):
-                continue                                  # (void)x;  ((void)0);  — no effect (NDEBUG assert, unused-variable silencer)
-            elif k == "IfStmt" or self.scalar_assignment(st):
-                env = dict(self.locals)
-                self.effects(st, env)
-                for nm in env:
-                    if env[nm] != self.locals[nm]:
-                        self.ssa += 1
-                        cn = "l_%s_%d" % (nm, self.ssa)
-                        self.lets.append((cn, env[nm]))
-                        self.locals[nm] = cn
-            elif k == "NullStmt":
-                continue
-            elif self.mode.get("matrix") and k in ("BinaryOperator", "CXXOperatorCallExpr", "ExprWithCleanups", "CXXMemberCallExpr"):
-                col = self.comma_init(st)
-                if col is not None:
-                    kcol, terms = col
-                    if kcol in self.cols:
-                        raise Unsupported("column %d written twice" % kcol)
-                    self.cols[kcol] = terms
-                    continue
-                if self.mentions(st, self.mode["matrix"]):
-                    raise Unsupported("statement touches the matrix outside a comma initialiser")
-                self.skipped.append(k)
-            elif k in ("BinaryOperator", "CXXOperatorCallExpr", "ExprWithCleanups"):
-                s = self.strip(st)
-                if s.get("kind") == "BinaryOperator" and s.get("opcode") == "=":
-                    lhs, rhs = self.strip(s["inner"][0]), s["inner"][1]
-                elif s.get("kind") == "CXXOperatorCallExpr" and len(s.get("inner", [])) == 3:
-                    lhs, rhs = self.strip(s["inner"][1]), s["inner"][2]   # operator=(lhs, rhs)
-                else:
-                    raise Unsupported("statement %s" % s.get("kind"))
-                # lhs must be  vec[i]
-                if lhs.get("kind") == "CXXOperatorCallExpr" and len(lhs.get("inner", [])) == 3:
-                    obj, idx = self.strip(lhs["inner"][1]), self.strip(lhs["inner"][2])
-                    if obj.get("kind") == "DeclRefExpr" and obj["referencedDecl"]["name"] in self.vec and idx.get("kind") == "IntegerLiteral":
-                        self.vec[obj["referencedDecl"]["name"]][int(idx["value"])] = self.expr(rhs)
-                        continue
-                raise Unsupported("assignment target")
-            else:
-                raise Unsupported("statement %s" % k)
+            if self.result is not None:
+                raise Unsupported("statement after return")
+            self.stmt(st)
         if self.mode.get("matrix"):
             if sorted(self.cols) != [0, 1, 2] or any(len(self.cols[c]) != 3 for c in self.cols):
                 raise Unsupported("matrix columns written: %s" % sorted(self.cols))
             return [self.cols[c][r] for r in range(3) for c in range(3)]       # row-major
-        if result is None:
+        if self.result is None:
             raise Unsupported("no return")
-        return result
+        return self.result
+
+    def assigned_locals(self, n, acc):
+        if n.get("kind") in ("BinaryOperator", "CompoundAssignOperator") and n.get("opcode") in ("=", "+=", "-=", "*=", "/="):
+            lhs = self.strip(n["inner"][0])
+            if lhs.get("kind") == "DeclRefExpr" and lhs["referencedDecl"]["name"] in self.locals:
+                acc.add(lhs["referencedDecl"]["name"])
+        if n.get("kind") == "UnaryOperator" and n.get("opcode") in ("++", "--"):
+            raise Unsupported("increment / decrement")
+        for c in n.get("inner", []):
+            if isinstance(c, dict):
+                self.assigned_locals(c, acc)
+
+    def is_break_if(self, st):
+        if st.get("kind") != "IfStmt":
+            return None
+        parts = [c for c in st.get("inner", []) if isinstance(c, dict)]
+        if len(parts) != 2:
+            return None
+        b = parts[1]
+        if b.get("kind") == "CompoundStmt" and len(b.get("inner", [])) == 1:
+            b = b["inner"][0]
+        return parts[0] if b.get("kind") == "BreakStmt" else None
+
+    def loop(self, st):
+        """while (c) { body }   ->  fix loop fu v.. := if c then match fu with O => None | S f => body; loop f v'.. end else Some v..
+           for (;;) { body; if (c) break; }  ->  fix loop fu v.. := match fu with O => None | S f => body; if c then Some v'.. else loop f v'.. end
+           The loop-carried variables are the scalar locals declared before the loop and assigned in it.  The function gets a
+           fuel argument and an option result: None = the C++ loop would still be running after `fuel` passes."""
+        parts = st.get("inner", [])
+        if st["kind"] == "WhileStmt":
+            if len(parts) != 2:
+                raise Unsupported("while with a condition variable")
+            cond_node, body_node = parts
+        else:
+            if len(parts) != 5 or any(p for p in parts[:4]):
+                raise Unsupported("for loop other than for(;;)")
+            cond_node, body_node = None, parts[4]
+        if body_node.get("kind") != "CompoundStmt":
+            raise Unsupported("loop body is not a block")
+        stmts = body_node.get("inner", [])
+        acc = set()
+        self.assigned_locals(body_node, acc)
+        carried = [nm for nm in self.locals if nm in acc]          # declaration order
+        if not carried:
+            raise Unsupported("loop without loop-carried scalar")
+        self.ssa += 1
+        tag = self.ssa
+        binders = ["b_%s_%d" % (nm, tag) for nm in carried]
+        saved_locals, saved_lets = dict(self.locals), self.lets
+        self.locals.update(dict(zip(carried, binders)))
+        self.lets = []
+        try:
+            exit_cond = None
+            cond_term = self.expr(cond_node) if cond_node is not None else None
+            for i, b in enumerate(stmts):
+                c = self.is_break_if(b)
+                if c is not None and cond_node is None and i == len(stmts) - 1:
+                    exit_cond = self.expr(c)
+                    continue
+                if self.has_kind(b, ("BreakStmt", "ContinueStmt", "ReturnStmt", "GotoStmt")):
+                    raise Unsupported("break / continue / return other than a final `if (c) break;` of for(;;)")
+                self.stmt(b, in_loop=True)
+            if self.pending:
+                raise Unsupported("call of an iterative helper inside a loop")
+            if cond_node is None and exit_cond is None:
+                raise Unsupported("for(;;) without a final `if (c) break;`")
+            body_lets = self.lets
+            new_vals = [self.locals[nm] for nm in carried]
+        finally:
+            self.locals, self.lets = saved_locals, saved_lets
+        if any(kind != "let" for kind, _, _ in body_lets):
+            raise Unsupported("binding inside a loop")
+        lets_txt = "".join("let %s := %s in " % (nm, t) for _, nm, t in body_lets)
+
+        def tup(xs):
+            return xs[0] if len(xs) == 1 else "(" + ", ".join(xs) + ")"
+        rec = "loop_%d f %s" % (tag, " ".join(new_vals))
+        if cond_node is not None:
+            inner = "if %s then match fu with O => None | S f => %s%s end else Some %s" % (cond_term, lets_txt, rec, tup(binders))
+        else:
+            inner = "match fu with O => None | S f => %sif %s then Some %s else %s end" % (lets_txt, exit_cond, tup(new_vals), rec)
+        rty = "T" if len(carried) == 1 else "(" + " * ".join(["T"] * len(carried)) + ")"
+        fix = "((fix loop_%d (fu : nat) %s {struct fu} : option %s := %s) fuel %s)" % (
+            tag, " ".join("(%s : T)" % b for b in binders), rty, inner, " ".join(saved_locals[nm] for nm in carried))
+        outs = ["l_%s_%d" % (nm, tag) for nm in carried]
+        self.lets.append(("bind", tup(outs), fix))
+        for nm, o in zip(carried, outs):
+            self.locals[nm] = o
+        self.partial = True
+
+    def has_kind(self, n, kinds):
+        if n.get("kind") in kinds:
+            return True
+        return any(isinstance(c, dict) and self.has_kind(c, kinds) for c in n.get("inner", []))
 
     def void_noop(self, st):
         if st.get("type", {}).get("qualType") != "void" or st.get("kind") not in ("ParenExpr", "CStyleCastExpr", "CXXStaticCastExpr", "CXXFunctionalCastExpr"):
@@ -422,13 +567,19 @@ class Fn:
         return int(idx["value"]), [self.expr(e) for e in [first] + rest]
 
 
-def find_def(objs, mname, instantiation=False):
+def find_def(objs, mname, instantiation=False, param_type=None):
     found = []
+
+    def first_param_ok(n):
+        if param_type is None:
+            return True
+        ps = [c for c in n.get("inner", []) if c.get("kind") == "ParmVarDecl"]
+        return bool(ps) and param_type in ps[0].get("type", {}).get("qualType", "")
 
     def walk(n):
         if n.get("kind") in ("CXXMethodDecl", "FunctionDecl") and n.get("name") == mname and \
                 any(c.get("kind") == "CompoundStmt" for c in n.get("inner", [])) and \
-                any(c.get("kind") == "TemplateArgument" for c in n.get("inner", [])) == instantiation:
+                any(c.get("kind") == "TemplateArgument" for c in n.get("inner", [])) == instantiation and first_param_ok(n):
             found.append(n)
         for c in n.get("inner", []):
             if isinstance(c, dict):
@@ -459,19 +610,26 @@ def generate(repo="/repo"):
                     if len(vds) != 1 or not vds[0].get("inner"):
                         raise Unsupported("constant %s: %d definitions" % (cn_, len(vds)))
                     mode["consts"][cn_] = Fn({"inner": []}).expr(vds[0]["inner"][-1])
-            defs = find_def(load(repo, src, flt, tu), mname, bool(mode and mode.get("tu")))
+            defs = find_def(load(repo, src, flt, tu), mname, bool(mode and mode.get("tu")), mode.get("param_type") if mode else None)
             if len(defs) != 1:
                 raise Unsupported("%d definitions found" % len(defs))
             f = Fn(defs[0], known, mode)
             res = f.body()
             if len(f.free) == f.nparams and len(res) == 1:
-                known[mname] = (cname, f.nparams)          # a pure scalar helper other functions may call
-            body = ""
-            for nm, t in f.lets:
-                body += "  let %s := %s in\n" % (nm, t)
-            body += "  " + (res[0] if len(res) == 1 else "(" + ", ".join(res) + ")")
+                known[mname] = (cname, f.nparams, f.partial)          # a pure scalar helper other functions may call
+            body, closing = "", ""
+            for kind, nm, t in f.lets:
+                if kind == "let":
+                    body += "  let %s := %s in\n" % (nm, t)
+                else:
+                    body += "  match %s with None => None | Some %s =>\n" % (t, nm)
+                    closing += " end"
+            rtxt = res[0] if len(res) == 1 else "(" + ", ".join(res) + ")"
+            body += "  " + ("Some " + rtxt if f.partial else rtxt) + closing
             rty = "T" if len(res) == 1 else "(" + " * ".join(["T"] * len(res)) + ")%type"
-            params = " ".join("(%s : T)" % v for v in f.free)
+            if f.partial:
+                rty = "option " + rty
+            params = ("(fuel : nat) " if f.partial else "") + " ".join("(%s : T)" % v for v in f.free)
             lines.append("(* %s::%s   free variables in order of appearance: %s%s *)" % (
                 src, mname, ", ".join(f.free),
                 ("; 3x3 block row-major; %d statements not touching it skipped" % len(f.skipped)) if mode and mode.get("matrix") else ""))
